@@ -1,36 +1,9 @@
 /-
-C17: invariants over histories and the property theorems' proofs.
+C17: invariants over histories.
 -/
 import EdbVerif.Lemmas.SyncStep
 
 namespace EdbVerif.Sync
-
-/-! ### more on `__sync__` -/
-
-theorem wsyncTail_ok_notbad (env : Env) (a : Side) (p : Parts) (d d' : Db3) :
-    (wsyncTail env a p d).2 = some d' → badO env p.glob = false ∧ badO env p.sys = false := by
-  unfold wsyncTail
-  split <;> split <;> (try split) <;> (try split) <;> simp_all [badO]
-
-/-- a complete sync unpickled everything that was sent -/
-theorem wsync_ok_notbad (env : Env) (a : Side) (db : Nat) (p : Parts) (d : Db3)
-    (σ : Slot) (t : Tok) (hs : p.at db σ = some t) :
-    (wsync env a db p).2 = some d → env.bad t = false := by
-  have hk := fun a' d d' => wsyncTail_ok_notbad env a' p d d'
-  unfold wsync
-  split
-  · split
-    · split
-      · simp
-      · intro h
-        have := hk _ _ _ h
-        cases σ <;> simp only [Parts.at] at hs <;> (try split at hs) <;> simp_all [badO]
-    · simp
-  · split
-    · simp
-    · intro h
-      have := hk _ _ _ h
-      cases σ <;> simp only [Parts.at] at hs <;> (try split at hs) <;> simp_all [badO]
 
 /-! ### compile_in_tx only touches the last-state fields -/
 
@@ -39,8 +12,8 @@ theorem stepTx_frame (env : Env) (st : State) (r : TReq) (i : Nat) (h : i ≠ r.
   unfold stepTx
   simp only []
   split
-  · rfl
-  · split <;> (try split) <;> first | rfl | exact upd_other _ _ _ _ h
+  · exact upd_other _ _ _ _ h
+  · split <;> (try split) <;> exact upd_other _ _ _ _ h
 
 theorem stepTx_get (env : Env) (st : State) (r : TReq) (i : Nat) (σ : Slot) :
     ((stepTx env st r).1 i).bel.get σ = (st i).bel.get σ ∧
@@ -50,89 +23,46 @@ theorem stepTx_get (env : Env) (st : State) (r : TReq) (i : Nat) (σ : Slot) :
     unfold stepTx
     simp only []
     split
-    · exact ⟨rfl, rfl⟩
-    · split <;> (try split) <;>
-        first | exact ⟨rfl, rfl⟩ | (simp only [upd_same]; constructor <;> cases σ <;> simp [Side.get])
+    · simp only [upd_same]; constructor <;> cases σ <;> simp [Side.get, Side.forget]
+    · split <;> (try split) <;> (simp only [upd_same]; constructor <;> cases σ <;> simp [Side.get, Side.forget])
   · rw [stepTx_frame env st r i hi]; exact ⟨rfl, rfl⟩
 
-/-! ### "belief ⇒ actual" is preserved (under the two hypotheses) -/
+/-! ### "belief ⇒ actual" is preserved by everything except status 2 -/
 
-
-theorem falsyOK_sent (env : Env) (r : CReq) (σ : Slot) (t : Tok) (hm : (σ, t) ∈ r.slots)
-    (hf : r.falsyOK env σ) (hnb : env.bad t = false) :
-    env.falsy t = false ∨ σ = .glob ∨ σ = .sys := by
-  cases σ <;> simp [CReq.slots, CReq.falsyOK] at hm hf ⊢
-  · obtain ⟨h1, h2⟩ := hm; subst h1 h2
-    cases hft : env.falsy r.schema
-    · rfl
-    · have := hf rfl hft; simp_all
-  · obtain ⟨h1, h2⟩ := hm; subst h1 h2; exact hf rfl
-  · obtain ⟨h1, h2⟩ := hm; subst h1 h2; exact hf rfl
-
-theorem badO_sent_glob (env : Env) (b : Side) (r : CReq) (h : env.bad r.glob = false) :
-    badO env (preargs b r).glob = false := by
-  cases hg : (preargs b r).glob with
-  | none => rfl
-  | some g =>
-    have := (preargs_at_some b r .glob g (by simpa [Parts.at] using hg)).1
-    simp [CReq.slots] at this
-    subst this; simpa [badO] using h
-
-theorem badO_sent_sys (env : Env) (b : Side) (r : CReq) (h : env.bad r.sys = false) :
-    badO env (preargs b r).sys = false := by
-  cases hg : (preargs b r).sys with
-  | none => rfl
-  | some g =>
-    have := (preargs_at_some b r .sys g (by simpa [Parts.at] using hg)).1
-    simp [CReq.slots] at this
-    subst this; simpa [badO] using h
-
-/-- one `compile` request preserves "belief ⇒ actual" at a slot, provided it has
-    no late failure point and the slot's value survives `new or old` -/
+/-- one `compile` request that does not end with status 2 preserves
+    "belief ⇒ actual" at every slot of every worker -/
 theorem agreeAt_compile (env : Env) (st : State) (r : CReq) (σ : Slot)
-    (hl : r.noLateFail env) (hf : r.falsyOK env σ) (i : Nat) (h : AgreeAt (st i) σ) :
+    (hlo : r.out ≠ .resultUnpicklable) (i : Nat) (h : AgreeAt (st i) σ) :
     AgreeAt ((stepCompile env st r).1 i) σ := by
   by_cases hi : i = r.w
   case neg => rw [stepCompile_frame env st r i hi]; exact h
   subst hi
-  obtain ⟨hlg, hly, hlo⟩ := hl
   intro x hx
   cases hW : (wsync env (st r.w).act r.db (preargs (st r.w).bel r)).2 with
   | none =>
-    rw [(stepCompile_bel_fail env st r hW).1] at hx
-    rw [stepCompile_act,
-      wsync_fail_clean env _ _ _ (badO_sent_glob env _ r hlg) (badO_sent_sys env _ r hly) hW]
+    rw [(stepCompile_bel_fail env st r hW).1 σ] at hx
+    rw [stepCompile_act, wsync_fail_clean env _ _ _ hW]
     exact h x hx
   | some d =>
     obtain ⟨b', hb', hget⟩ := stepCompile_bel_acked env st r d hlo hW
     rw [hget] at hx
     rw [stepCompile_act]
     rcases wsync_slot env (st r.w).act r.db (preargs (st r.w).bel r) σ with ha | ⟨t, hs, ha⟩
-    · -- the worker did not touch the slot, so nothing was sent for it
-      rw [ha]
-      rcases withAck_slot env _ b' _ _ hb' σ with hb | ⟨t, hs, hb⟩
+    · rw [ha]
+      rcases withAck_slot _ b' _ _ hb' σ with hb | ⟨t, hs, hb⟩
       · rw [hb] at hx; exact h x hx
       · rw [← ha]; rw [hb] at hx; cases hx
         exact wsync_ok_slot env _ _ _ d σ _ hs hW
     · -- the worker installed `t`; the callback recorded it
-      have hnb := wsync_ok_notbad env _ _ _ d σ t hs hW
-      have hm := (preargs_at_some _ _ _ _ hs).1
-      have hrec := withAck_records env _ b' _ _ hb' σ t hs
-        (Or.inr (by
-          rcases falsyOK_sent env r σ t hm hf hnb with h1 | h1 | h1
-          · exact Or.inl h1
-          · exact Or.inr (Or.inl h1)
-          · exact Or.inr (Or.inr h1)))
-      rw [hrec] at hx; cases hx
+      rw [withAck_records _ b' _ _ hb' σ t hs] at hx; cases hx
       exact ha
 
-
 theorem agreeAt_step (env : Env) (st : State) (q : Req) (σ : Slot)
-    (hl : q.noLateFail env) (hf : q.falsyOK env σ) (h : ∀ i, AgreeAt (st i) σ) :
+    (hl : q.noStatus2) (h : ∀ i, AgreeAt (st i) σ) :
     ∀ i, AgreeAt ((step env st q).1 i) σ := by
   intro i
   cases q with
-  | compile r => exact agreeAt_compile env st r σ hl hf i (h i)
+  | compile r => exact agreeAt_compile env st r σ hl i (h i)
   | tx r =>
     intro x hx
     simp only [step] at hx ⊢
@@ -141,17 +71,15 @@ theorem agreeAt_step (env : Env) (st : State) (q : Req) (σ : Slot)
     exact h i x hx
 
 theorem agreeAt_exec (env : Env) (σ : Slot) (h : List Req) :
-    ∀ st, (∀ i, AgreeAt (st i) σ) → NoLateFail env h → FalsyOK env σ h →
-      ∀ i, AgreeAt (exec env st h i) σ := by
+    ∀ st, (∀ i, AgreeAt (st i) σ) → NoStatus2 h → ∀ i, AgreeAt (exec env st h i) σ := by
   induction h with
-  | nil => intro st h0 _ _; exact h0
+  | nil => intro st h0 _; exact h0
   | cons q qs ih =>
-    intro st h0 hl hf
+    intro st h0 hl
     simp only [exec]
     apply ih
-    · exact agreeAt_step env st q σ (hl q (by simp)) (hf q (by simp)) h0
+    · exact agreeAt_step env st q σ (hl q (by simp)) h0
     · intro q' hq'; exact hl q' (by simp [hq'])
-    · intro q' hq'; exact hf q' (by simp [hq'])
 
 theorem agreeAt_init (s : Side) (σ : Slot) (i : Nat) : AgreeAt (initState s i) σ := by
   intro x hx
@@ -159,74 +87,49 @@ theorem agreeAt_init (s : Side) (σ : Slot) (i : Nat) : AgreeAt (initState s i) 
     cases σ <;> rfl
   rw [this]; exact hx
 
+/-! ### a non-`None` `_last_pickled_state` denotes `LAST_STATE` — always -/
 
-
-/-! ### `_last_pickled_state` vs `LAST_STATE` -/
-
-theorem wsync_last (env : Env) (a : Side) (db : Nat) (p : Parts) :
-    (wsync env a db p).1.last = a.last := by
-  have hd := fun a' d => wsyncTail_dbs env a' p d
-  unfold wsync
-  split
-  · split
-    · split
-      · rfl
-      · exact (hd _ _).2
-    · rfl
-  · split
-    · rfl
-    · simp only []
-      rw [(hd _ _).2]
-      split <;> rfl
-
-theorem lastAgree_compile (env : Env) (st : State) (r : CReq)
-    (h1 : r.out ≠ .statePickleFail) (h2 : r.out ≠ .resultUnpicklable) (i : Nat)
-    (h : LastAgree (st i)) : LastAgree ((stepCompile env st r).1 i) := by
+theorem lastLe_compile (env : Env) (st : State) (r : CReq) (i : Nat)
+    (h : LastLe (st i)) : LastLe ((stepCompile env st r).1 i) := by
   by_cases hi : i = r.w
   case neg => rw [stepCompile_frame env st r i hi]; exact h
   subst hi
-  obtain ⟨b', hb'⟩ := withAck_defined env (st r.w).bel r
-  have hbl := withAck_last env _ b' _ _ hb'
-  have hwl := wsync_last env (st r.w).act r.db (preargs (st r.w).bel r)
-  unfold LastAgree at h ⊢
+  obtain ⟨b', hb'⟩ := withAck_defined (st r.w).bel r
+  unfold LastLe at h ⊢
   unfold stepCompile
   simp only []
-  generalize wsync env (st r.w).act r.db (preargs (st r.w).bel r) = W at hwl
+  generalize wsync env (st r.w).act r.db (preargs (st r.w).bel r) = W
   obtain ⟨a', sres⟩ := W
   cases sres with
-  | none => simp_all
+  | none => simp [Side.forget]
   | some d =>
     simp only [hb']
-    cases hout : r.out <;> simp_all
+    cases hout : r.out <;> simp [Side.forget]
 
-theorem lastAgree_tx (env : Env) (st : State) (r : TReq)
-    (h1 : r.out ≠ .statePickleFail) (h2 : r.out ≠ .resultUnpicklable) (h3 : r.out ≠ .raiseMutated)
-    (i : Nat)
-    (h : LastAgree (st i)) : LastAgree ((stepTx env st r).1 i) := by
+theorem lastLe_tx (env : Env) (st : State) (r : TReq) (i : Nat)
+    (h : LastLe (st i)) : LastLe ((stepTx env st r).1 i) := by
   by_cases hi : i = r.w
   case neg => rw [stepTx_frame env st r i hi]; exact h
   subst hi
-  unfold LastAgree at h ⊢
+  unfold LastLe at h ⊢
   unfold stepTx
   simp only []
   split
-  · exact h
-  · split <;> simp_all
+  · simp [Side.forget]
+  · split <;> (try split) <;> simp [Side.forget]
 
-theorem lastAgree_exec (env : Env) (h : List Req) :
-    ∀ st, (∀ i, LastAgree (st i)) → NoStateLoss h → ∀ i, LastAgree (exec env st h i) := by
+theorem lastLe_exec (env : Env) (h : List Req) :
+    ∀ st, (∀ i, LastLe (st i)) → ∀ i, LastLe (exec env st h i) := by
   induction h with
-  | nil => intro st h0 _; exact h0
+  | nil => intro st h0; exact h0
   | cons q qs ih =>
-    intro st h0 hl
+    intro st h0
     simp only [exec]
     apply ih
-    · intro i
-      have hq := hl q (by simp)
-      cases q with
-      | compile r => exact lastAgree_compile env st r hq.1 hq.2 i (h0 i)
-      | tx r => exact lastAgree_tx env st r hq.1 hq.2.1 hq.2.2 i (h0 i)
-    · intro q' hq'; exact hl q' (by simp [hq'])
+    intro i
+    cases q with
+    | compile r => exact lastLe_compile env st r i (h0 i)
+    | tx r => exact lastLe_tx env st r i (h0 i)
 
 /-! ### what a `compile_in_tx` request uses -/
 
@@ -289,6 +192,5 @@ theorem wtxPrepare_ok (env : Env) (a : Side) (r : TReq) (s : TxSend) (u : UsedTx
       · split at h
         · cases h
         · simp at h; subst h; simp_all
-
 
 end EdbVerif.Sync
